@@ -87,6 +87,18 @@ class SymMk:
         self.decls.append(("times", name, a))
         return a
 
+    def times_ns(self, name, n, min_step_ns=10**9):
+        """datetime64[ns] axis with nanosecond resolution, consecutive steps >= min_step_ns"""
+        fs = z3.Function(name + "_ns", z3.IntSort(), z3.IntSort())
+        self.ctx.index_funcs.append(fs)
+        a = Arr(n, "M", lambda i: (False, fs(alg.lift(i))), "ns", name)
+        a.is_input = True
+        a.fns = fs
+        if min_step_ns is not None:
+            self.fact(name + "-steps", lambda i: alg.implies(alg.and_(alg.le(0, i), alg.lt(alg.add(i, 1), n)), alg.ge(alg.sub(fs(alg.lift(alg.add(i, 1))), fs(alg.lift(i))), min_step_ns)))
+        self.decls.append(("times_ns", name, a))
+        return a
+
     def intseries(self, name, n):
         a = sym_arr(name, n, "i", nan=False)
         a.is_input = True
@@ -169,6 +181,17 @@ class ConcMk:
         a.secs = list(secs)
         return a
 
+    def times_ns(self, name, n, min_step_ns=10**9):
+        ns = [int(v) for v in self.values[name]]
+        assert len(ns) == n
+        if min_step_ns is not None and any(b - a < min_step_ns for a, b in zip(ns, ns[1:])):
+            self.ok = False
+        a = from_values(ns, "M", "ns")
+        a.is_input = True
+        a.name = name
+        a.ns = ns
+        return a
+
     def intseries(self, name, n):
         a = from_values([int(v) for v in self.values[name]], "i")
         a.is_input = True
@@ -226,6 +249,11 @@ class RealMk:
         import numpy as np
 
         return np.array([int(s) * 10**9 for s in self.values[name]], dtype="datetime64[ns]")
+
+    def times_ns(self, name, n, min_step_ns=10**9):
+        import numpy as np
+
+        return np.array([int(v) for v in self.values[name]], dtype="datetime64[ns]")
 
     def intseries(self, name, n):
         import numpy as np
@@ -493,6 +521,9 @@ def _extract_model(model, mk, bound_n=None):
         elif kind == "times":
             n = ev(obj.n)
             vals[name] = [ev(obj.fsec(z3.IntVal(i))) for i in range(n)]
+        elif kind == "times_ns":
+            n = ev(obj.n)
+            vals[name] = [ev(obj.fns(z3.IntVal(i))) for i in range(n)]
         elif kind == "intseries":
             n = ev(obj.n)
             vals[name] = [ev(obj.fv(z3.IntVal(i))) for i in range(n)]
